@@ -140,9 +140,11 @@ def run_impl(ctx, text):
         lines.append(f'crash rc={rc} ' + (tail[0][:200] if tail else ''))
     return lines
 
-def run_both(ctx, corr, ops, tag, nontrivial=None, oracle=None):
+def run_both(ctx, corr, ops, tag, nontrivial=None, oracle=None, lenient=()):
     """ops: list of protocol lines.  Runs the real code and the model, compares line by line; `oracle(op, impl_line)` may return
-    a violation description (implementation against the property's right-hand side)."""
+    a violation description (implementation against the property's right-hand side).  For an op in `lenient` an error reported by the
+    real code where the model reads a token is not a disagreement (tokenize() went on and failed on a *later* token, which the model
+    of the first token does not cover); counted as `later_token_error`."""
     if not ops:
         return
     text = ''.join(o + '\n' for o in ops)
@@ -155,7 +157,9 @@ def run_both(ctx, corr, ops, tag, nontrivial=None, oracle=None):
         lm = model[i] if i < len(model) else '<missing>'
         if nontrivial is None or nontrivial(op, li):
             corr.nontrivial.add(op)
-        if li != lm and len(corr.disagreements) < 5:
+        if li != lm and op in lenient and ' err ' in li and ' err ' not in lm:
+            corr.count('later_token_error')
+        elif li != lm and len(corr.disagreements) < 5:
             corr.disagreements.append({'kind': tag, 'input': op, 'impl': li, 'model': lm})
         if oracle:
             bad = oracle(op, li)
@@ -439,7 +443,7 @@ def splice_bases(ctx):
     out = []
     tails = [b';', b' + x;', b', "tail" )', b' /* c */ + 1', b'']
     more = [b'', b'int y = 2;\n', b'foo("s", 1.5, \'c\')\nbar\n', b'\n\nz\n']
-    n = 40 if not ctx.thorough else 1200
+    n = 200 if not ctx.thorough else 4000
     for _ in range(n):
         k = rng.random()
         if k < 0.45:
@@ -465,7 +469,7 @@ def leg_splice(ctx, corr):
     inserted anywhere: model <-> code on every text; and, inside the region of C11_text_transparent / C11_text_unspliced, the real code
     against the property itself: the first token of the spliced file is the first token of the unspliced one."""
     rng = ctx.rng
-    ops, partner, inside = [], {}, {}
+    ops, partner, inside, outside = [], {}, {}, set()
     for lit, base in splice_bases(ctx):
         bom = rng.random() < 0.25
         eol = rng.choice([b'\n', b'\n', b'\r\n', b'\r'])
@@ -500,6 +504,7 @@ def leg_splice(ctx, corr):
                 if hit:
                     inside[op] = True
             else:
+                outside.add(op)
                 corr.count('splice_outside_region')
     for w in SPLICE_WITNESSES:
         ops.append('file ' + hexs(w))
@@ -517,7 +522,7 @@ def leg_splice(ctx, corr):
         if tok_part(li) != tok_part(results[b]):
             return {'what': 'a backslash-newline inserted into the file changes the literal token tokenize() reads (C11 5.1.1.2p1(2): the '
                             'splice is deleted before tokenization)', 'expected': 'first token as in the unspliced file: ' + tok_part(results[b])}
-    run_both(ctx, corr, ops, 'tokenize_file_splices', lambda op, li: op in inside, oracle)
+    run_both(ctx, corr, ops, 'tokenize_file_splices', lambda op, li: op in inside, oracle, lenient=outside)
     corr.extra['splice_cases_inside_theorem_region'] = len(partner)
 
 def ref_phases(t):
